@@ -2,5 +2,5 @@
 import resource
 TUS = resource.TUS
 def run(facts, rep, tier):
-    resource.emit(facts, rep, 'C02', ['RES.1', 'RES.3', 'RES.4', 'RES.5', 'RES.6', 'RES.8', 'RES.9', 'RES.10', 'RES.11', 'RES.12', 'RES.13', 'RES.15a', 'RES.15b'],
+    resource.emit(facts, rep, 'C02', ['RES.1', 'RES.3', 'RES.4', 'RES.5', 'RES.6', 'RES.8', 'RES.9', 'RES.10', 'RES.11', 'RES.12', 'RES.13', 'RES.15a', 'RES.15b', 'RES.16'],
                   {'RES.1': 5, 'RES.3': 8, 'RES.4': 4, 'RES.5': 6, 'RES.6': 4, 'RES.8': 8, 'RES.9': 1, 'RES.10': 2, 'RES.11': 8, 'RES.12': 1, 'RES.13': 8, 'RES.15a': 2, 'RES.15b': 2})
